@@ -157,13 +157,13 @@ theorem decimal_not_bh (n : Nat) (rest : List UInt8) : ¬ [92, 35] <+: decimal n
 
 theorem parseUnknownRdataImpl_renderG (g1 g2 : PGap) (p0 p1 p2 : Bool) (rd : List UInt8)
     (h1 : GapOK g1 p0 p1) (h2 : rd ≠ [] → GapOK g2 p1 p2) (hp : rd = [] → p2 = p1)
-    (tg : PGap) (cmt : List UInt8) (hT : TailOK tg cmt p2) (crlf : Bool) (r : List UInt8)
+    (tg : PGap) (cmt : List UInt8) (hT : TailOK tg cmt p2) (eol : PEol) (r : List UInt8) (he : eol = .eof → r = [])
     (hlen : rd.length ≤ 65535) (line : Nat) :
     ∃ l, parseUnknownRdataImpl
       ⟨gapText g1 ++ (decimal rd.length ++ ((if rd.isEmpty then [] else gapText g2 ++ renderHex rd) ++
-        (tailText tg cmt crlf ++ r))), line, p0⟩ =
-      .ok ((l, rd), ⟨r, line + gapLines g1 + (if rd.isEmpty then 0 else gapLines g2) + gapLines tg + 1, false⟩) := by
-  have hEnd := atFieldEnd_tail tg cmt p2 hT crlf r
+        (tailText tg cmt eol ++ r))), line, p0⟩ =
+      .ok ((l, rd), ⟨r, line + gapLines g1 + (if rd.isEmpty then 0 else gapLines g2) + gapLines tg + eolLines eol, false⟩) := by
+  have hEnd := atFieldEnd_tail tg cmt p2 hT eol r he
   unfold parseUnknownRdataImpl
   cases rd with
   | nil =>
@@ -173,16 +173,16 @@ theorem parseUnknownRdataImpl_renderG (g1 g2 : PGap) (p0 p1 p2 : Bool) (rd : Lis
     simp only [List.length_nil, List.isEmpty_nil, ↓reduceIte, List.nil_append, bind, P.bind,
       h1.skip _ _ ((starts_decimal 0).append _) line, show parseU16 = parseUInt 65535 from rfl,
       readField_decimal 65535 0 (by omega) (by omega) _ _ hEnd, beq_self_eq_true, getLine, pure, P.pure,
-      expectEol_tail tg cmt p2 hT crlf r, Nat.add_zero]
+      expectEol_tail tg cmt p2 hT eol r he, Nat.add_zero]
   | cons b rd' =>
     have h2' := h2 (by simp)
     obtain ⟨h, t, hh, hhstart⟩ := renderHex_head b rd'
     have hlen' : rd'.length + 1 ≤ 65535 := by simpa using hlen
     have hne0 : ((rd'.length + 1) == 0) = false := by simp
-    have hHexStarts : Starts (renderHex (b :: rd') ++ (tailText tg cmt crlf ++ r)) :=
-      ⟨h, t ++ (tailText tg cmt crlf ++ r), by rw [hh]; rfl, hhstart⟩
+    have hHexStarts : Starts (renderHex (b :: rd') ++ (tailText tg cmt eol ++ r)) :=
+      ⟨h, t ++ (tailText tg cmt eol ++ r), by rw [hh]; rfl, hhstart⟩
     refine ⟨line + gapLines g1 + gapLines g2, ?_⟩
-    have hd3 := hexDigits_render (b :: rd') [] (tailText tg cmt crlf ++ r) (line + gapLines g1 + gapLines g2) p2
+    have hd3 := hexDigits_render (b :: rd') [] (tailText tg cmt eol ++ r) (line + gapLines g1 + gapLines g2) p2
     simp only [List.length_cons] at hd3
     have hmk : ∀ st, mkRdata ([].reverse ++ b :: rd') st = .ok (b :: rd', st) := by
       intro st
@@ -192,23 +192,23 @@ theorem parseUnknownRdataImpl_renderG (g1 g2 : PGap) (p0 p1 p2 : Bool) (rd : Lis
     simp only [List.length_cons, List.isEmpty_cons, Bool.false_eq_true, ↓reduceIte, List.append_assoc, bind, P.bind,
       h1.skip _ _ ((starts_decimal (rd'.length + 1)).append _) line, show parseU16 = parseUInt 65535 from rfl,
       readField_decimal 65535 _ hlen' (by omega) _ _ (h2'.atEnd _), hne0,
-      h2'.skip _ _ hHexStarts, getLine, hd3, hmk, pure, P.pure, expectEol_tail tg cmt p2 hT crlf r]
+      h2'.skip _ _ hHexStarts, getLine, hd3, hmk, pure, P.pure, expectEol_tail tg cmt p2 hT eol r he]
 
 /-- **RFC 3597 RDATA** `\# len hex`, for any class and type, with general gaps -/
 theorem parseRdata_genericG (ctx : Ctx) (cls ty : Nat) (h41 : ty ≠ 41) (h250 : ty ≠ 250)
     (g0 g1 g2 : PGap) (q p0 p1 p2 : Bool) (rd : List UInt8) (h0 : GapOK g0 q p0)
     (h1 : GapOK g1 p0 p1) (h2 : rd ≠ [] → GapOK g2 p1 p2) (hp : rd = [] → p2 = p1)
-    (tg : PGap) (cmt : List UInt8) (hT : TailOK tg cmt p2) (crlf : Bool) (r : List UInt8)
+    (tg : PGap) (cmt : List UInt8) (hT : TailOK tg cmt p2) (eol : PEol) (r : List UInt8) (he : eol = .eof → r = [])
     (hlen : rd.length ≤ 65535) (hvalid : validate cls ty rd = .ok ()) (line : Nat) :
     parseRdata ctx cls ty
       ⟨gapText g0 ++ 92 :: 35 :: (gapText g1 ++ (decimal rd.length ++ ((if rd.isEmpty then [] else gapText g2 ++ renderHex rd) ++
-        (tailText tg cmt crlf ++ r)))), line, q⟩ =
-      .ok (rd, ⟨r, line + gapLines g0 + gapLines g1 + (if rd.isEmpty then 0 else gapLines g2) + gapLines tg + 1, false⟩) := by
+        (tailText tg cmt eol ++ r)))), line, q⟩ =
+      .ok (rd, ⟨r, line + gapLines g0 + gapLines g1 + (if rd.isEmpty then 0 else gapLines g2) + gapLines tg + eolLines eol, false⟩) := by
   have hfe := h1.atEnd (decimal rd.length ++ ((if rd.isEmpty then [] else gapText g2 ++ renderHex rd) ++
-        (tailText tg cmt crlf ++ r)))
-  obtain ⟨l, himpl⟩ := parseUnknownRdataImpl_renderG g1 g2 p0 p1 p2 rd h1 h2 hp tg cmt hT crlf r hlen (line + gapLines g0)
+        (tailText tg cmt eol ++ r)))
+  obtain ⟨l, himpl⟩ := parseUnknownRdataImpl_renderG g1 g2 p0 p1 p2 rd h1 h2 hp tg cmt hT eol r he hlen (line + gapLines g0)
   generalize hX : gapText g1 ++ (decimal rd.length ++ ((if rd.isEmpty then [] else gapText g2 ++ renderHex rd) ++
-        (tailText tg cmt crlf ++ r))) = X at hfe himpl ⊢
+        (tailText tg cmt eol ++ r))) = X at hfe himpl ⊢
   generalize hL : (line + gapLines g0 + gapLines g1 + if rd.isEmpty then 0 else gapLines g2) = L at himpl ⊢
   unfold parseRdata
   cases hf : findArm cls ty with
@@ -241,16 +241,17 @@ theorem gapText_pos {g : PGap} (h : g ≠ []) : 0 < (gapText g).length := by
 /-! ### the kinds -/
 
 section kinds
-variable (ctx : Ctx) (G : Nat → PGap) (S : Nat → Bool) (tg : PGap) (cmt : List UInt8) (crlf : Bool)
-  (r : List UInt8) (line : Nat)
+variable (ctx : Ctx) (G : Nat → PGap) (S : Nat → Bool) (tg : PGap) (cmt : List UInt8) (eol : PEol)
+  (r : List UInt8) (he : eol = .eof → r = []) (line : Nat)
+include he
 
 /-- NS, MD, MF, CNAME, MB, MG, MR, PTR: one name -/
 theorem parseRdata_name_text (cls ty : Nat) (hty : [2, 3, 4, 5, 7, 8, 9, 12].contains ty = true)
     (T w : List UInt8) (k : Nat) (hn : NameTextOK ctx.origin T w k) (hnb : ¬ [92, 35] <+: T)
     (hG : ∀ i, i ≤ 0 → GapOK (G i) (S i) (S (i + 1))) (hT : TailOK tg cmt (S 1)) :
-    parseRdata ctx cls ty ⟨gapText (G 0) ++ (T ++ (tailText tg cmt crlf ++ r)), line, S 0⟩ =
-      .ok (w, ⟨r, line + gapLines (G 0) + k + gapLines tg + 1, false⟩) := by
-  have hEnd := atFieldEnd_tail tg cmt _ hT crlf r
+    parseRdata ctx cls ty ⟨gapText (G 0) ++ (T ++ (tailText tg cmt eol ++ r)), line, S 0⟩ =
+      .ok (w, ⟨r, line + gapLines (G 0) + k + gapLines tg + eolLines eol, false⟩) := by
+  have hEnd := atFieldEnd_tail tg cmt _ hT eol r he
   have harm : findArm cls ty = some "parse_name_rdata" := by
     simp only [List.contains_iff_mem, List.mem_cons, List.mem_nil_iff, or_false] at hty
     rcases hty with rfl | rfl | rfl | rfl | rfl | rfl | rfl | rfl <;>
@@ -258,16 +259,16 @@ theorem parseRdata_name_text (cls ty : Nat) (hty : [2, 3, 4, 5, 7, 8, 9, 12].con
   rw [parseRdata_typed ctx cls ty _ harm _ _ _ (hG 0 (by omega)) T _ hn.starts hnb hEnd line]
   show nameRdataBody ctx _ = _
   unfold nameRdataBody
-  simp only [bind, P.bind, pName, hn.parse _ _ _ hEnd, expectEol_tail tg cmt _ hT crlf r,
+  simp only [bind, P.bind, pName, hn.parse _ _ _ hEnd, expectEol_tail tg cmt _ hT eol r he,
     mkRdata_ok w (by have := hn.len; omega)]
 
 /-- MX: preference and exchange -/
 theorem parseRdata_mx_text (cls : Nat) (p : Nat) (hp : p ≤ 65535) (T w : List UInt8) (k : Nat)
     (hn : NameTextOK ctx.origin T w k)
     (hG : ∀ i, i ≤ 1 → GapOK (G i) (S i) (S (i + 1))) (hT : TailOK tg cmt (S 2)) :
-    parseRdata ctx cls 15 ⟨gapText (G 0) ++ (decimal p ++ (gapText (G 1) ++ (T ++ (tailText tg cmt crlf ++ r)))), line, S 0⟩ =
-      .ok (u16be p ++ w, ⟨r, line + gapLines (G 0) + gapLines (G 1) + k + gapLines tg + 1, false⟩) := by
-  have hEnd := atFieldEnd_tail tg cmt _ hT crlf r
+    parseRdata ctx cls 15 ⟨gapText (G 0) ++ (decimal p ++ (gapText (G 1) ++ (T ++ (tailText tg cmt eol ++ r)))), line, S 0⟩ =
+      .ok (u16be p ++ w, ⟨r, line + gapLines (G 0) + gapLines (G 1) + k + gapLines tg + eolLines eol, false⟩) := by
+  have hEnd := atFieldEnd_tail tg cmt _ hT eol r he
   have harm : findArm cls 15 = some "parse_mx_rdata" := by
     simp [findArm, Gen.parseRdataArms, armMatches, List.find?]
   rw [parseRdata_typed ctx cls 15 _ harm _ _ _ (hG 0 (by omega)) (decimal p) _ (starts_decimal p)
@@ -277,16 +278,16 @@ theorem parseRdata_mx_text (cls : Nat) (p : Nat) (hp : p ≤ 65535) (T w : List 
   simp only [bind, P.bind, pName, show parseU16 = parseUInt 65535 from rfl,
     readField_decimal 65535 p hp (by omega) _ _ ((hG 1 (by omega)).atEnd _),
     (hG 1 (by omega)).skip _ _ (hn.starts.append _),
-    hn.parse _ _ _ hEnd, expectEol_tail tg cmt _ hT crlf r,
+    hn.parse _ _ _ hEnd, expectEol_tail tg cmt _ hT eol r he,
     mkRdata_ok (u16be p ++ w) (by have := hn.len; simp [u16be]; omega)]
 
 /-- MINFO: two names -/
 theorem parseRdata_minfo_text (cls : Nat) (T1 w1 : List UInt8) (k1 : Nat) (T2 w2 : List UInt8) (k2 : Nat)
     (h1 : NameTextOK ctx.origin T1 w1 k1) (h2 : NameTextOK ctx.origin T2 w2 k2) (hnb : ¬ [92, 35] <+: T1)
     (hG : ∀ i, i ≤ 1 → GapOK (G i) (S i) (S (i + 1))) (hT : TailOK tg cmt (S 2)) :
-    parseRdata ctx cls 14 ⟨gapText (G 0) ++ (T1 ++ (gapText (G 1) ++ (T2 ++ (tailText tg cmt crlf ++ r)))), line, S 0⟩ =
-      .ok (w1 ++ w2, ⟨r, line + gapLines (G 0) + k1 + gapLines (G 1) + k2 + gapLines tg + 1, false⟩) := by
-  have hEnd := atFieldEnd_tail tg cmt _ hT crlf r
+    parseRdata ctx cls 14 ⟨gapText (G 0) ++ (T1 ++ (gapText (G 1) ++ (T2 ++ (tailText tg cmt eol ++ r)))), line, S 0⟩ =
+      .ok (w1 ++ w2, ⟨r, line + gapLines (G 0) + k1 + gapLines (G 1) + k2 + gapLines tg + eolLines eol, false⟩) := by
+  have hEnd := atFieldEnd_tail tg cmt _ hT eol r he
   have harm : findArm cls 14 = some "parse_minfo_rdata" := by
     simp [findArm, Gen.parseRdataArms, armMatches, List.find?]
   rw [parseRdata_typed ctx cls 14 _ harm _ _ _ (hG 0 (by omega)) T1 _ h1.starts hnb ((hG 1 (by omega)).atEnd _) line]
@@ -294,7 +295,7 @@ theorem parseRdata_minfo_text (cls : Nat) (T1 w1 : List UInt8) (k1 : Nat) (T2 w2
   unfold minfoRdataBody
   simp only [bind, P.bind, pName, h1.parse _ _ _ ((hG 1 (by omega)).atEnd _),
     (hG 1 (by omega)).skip _ _ (h2.starts.append _),
-    h2.parse _ _ _ hEnd, expectEol_tail tg cmt _ hT crlf r,
+    h2.parse _ _ _ hEnd, expectEol_tail tg cmt _ hT eol r he,
     mkRdata_ok (w1 ++ w2) (by have := h1.len; have := h2.len; simp; omega)]
 
 /-- SRV: priority, weight, port, target -/
@@ -302,10 +303,10 @@ theorem parseRdata_srv_text (p wt port : Nat) (hp : p ≤ 65535) (hwt : wt ≤ 6
     (T w : List UInt8) (k : Nat) (hn : NameTextOK ctx.origin T w k)
     (hG : ∀ i, i ≤ 3 → GapOK (G i) (S i) (S (i + 1))) (hT : TailOK tg cmt (S 4)) :
     parseRdata ctx 1 33 ⟨gapText (G 0) ++ (decimal p ++ (gapText (G 1) ++ (decimal wt ++ (gapText (G 2) ++
-        (decimal port ++ (gapText (G 3) ++ (T ++ (tailText tg cmt crlf ++ r)))))))), line, S 0⟩ =
+        (decimal port ++ (gapText (G 3) ++ (T ++ (tailText tg cmt eol ++ r)))))))), line, S 0⟩ =
       .ok (u16be p ++ u16be wt ++ u16be port ++ w,
-        ⟨r, line + gapLines (G 0) + gapLines (G 1) + gapLines (G 2) + gapLines (G 3) + k + gapLines tg + 1, false⟩) := by
-  have hEnd := atFieldEnd_tail tg cmt _ hT crlf r
+        ⟨r, line + gapLines (G 0) + gapLines (G 1) + gapLines (G 2) + gapLines (G 3) + k + gapLines tg + eolLines eol, false⟩) := by
+  have hEnd := atFieldEnd_tail tg cmt _ hT eol r he
   have harm : findArm 1 33 = some "parse_in_srv_rdata" := by decide
   rw [parseRdata_typed ctx 1 33 _ harm _ _ _ (hG 0 (by omega)) (decimal p) _ (starts_decimal p)
     (by simpa using decimal_not_bh p []) ((hG 1 (by omega)).atEnd _) line]
@@ -318,7 +319,7 @@ theorem parseRdata_srv_text (p wt port : Nat) (hp : p ≤ 65535) (hwt : wt ≤ 6
     (hG 1 (by omega)).skip _ _ ((starts_decimal wt).append _),
     (hG 2 (by omega)).skip _ _ ((starts_decimal port).append _),
     (hG 3 (by omega)).skip _ _ (hn.starts.append _),
-    hn.parse _ _ _ hEnd, expectEol_tail tg cmt _ hT crlf r,
+    hn.parse _ _ _ hEnd, expectEol_tail tg cmt _ hT eol r he,
     mkRdata_ok (u16be p ++ u16be wt ++ u16be port ++ w) (by have := hn.len; simp [u16be]; omega)]
 
 /-- SOA: two names and five 32-bit numbers -/
@@ -329,11 +330,11 @@ theorem parseRdata_soa_text (cls : Nat) (T1 w1 : List UInt8) (k1 : Nat) (T2 w2 :
     (hG : ∀ i, i ≤ 6 → GapOK (G i) (S i) (S (i + 1))) (hT : TailOK tg cmt (S 7)) :
     parseRdata ctx cls 6 ⟨gapText (G 0) ++ (T1 ++ (gapText (G 1) ++ (T2 ++ (gapText (G 2) ++ (decimal s1 ++
         (gapText (G 3) ++ (decimal s2 ++ (gapText (G 4) ++ (decimal s3 ++ (gapText (G 5) ++ (decimal s4 ++
-        (gapText (G 6) ++ (decimal s5 ++ (tailText tg cmt crlf ++ r)))))))))))))), line, S 0⟩ =
+        (gapText (G 6) ++ (decimal s5 ++ (tailText tg cmt eol ++ r)))))))))))))), line, S 0⟩ =
       .ok (w1 ++ w2 ++ u32be s1 ++ u32be s2 ++ u32be s3 ++ u32be s4 ++ u32be s5,
            ⟨r, line + gapLines (G 0) + k1 + gapLines (G 1) + k2 + gapLines (G 2) + gapLines (G 3) + gapLines (G 4) +
-              gapLines (G 5) + gapLines (G 6) + gapLines tg + 1, false⟩) := by
-  have hEnd := atFieldEnd_tail tg cmt _ hT crlf r
+              gapLines (G 5) + gapLines (G 6) + gapLines tg + eolLines eol, false⟩) := by
+  have hEnd := atFieldEnd_tail tg cmt _ hT eol r he
   have harm : findArm cls 6 = some "parse_soa_rdata" := by
     simp [findArm, Gen.parseRdataArms, armMatches, List.find?]
   rw [parseRdata_typed ctx cls 6 _ harm _ _ _ (hG 0 (by omega)) T1 _ h1.starts hnb ((hG 1 (by omega)).atEnd _) line]
@@ -353,7 +354,7 @@ theorem parseRdata_soa_text (cls : Nat) (T1 w1 : List UInt8) (k1 : Nat) (T2 w2 :
     readField_decimal 4294967295 s3 b3 (by omega) _ _ ((hG 5 (by omega)).atEnd _),
     readField_decimal 4294967295 s4 b4 (by omega) _ _ ((hG 6 (by omega)).atEnd _),
     readField_decimal 4294967295 s5 b5 (by omega) _ _ hEnd,
-    expectEol_tail tg cmt _ hT crlf r,
+    expectEol_tail tg cmt _ hT eol r he,
     mkRdata_ok (w1 ++ w2 ++ u32be s1 ++ u32be s2 ++ u32be s3 ++ u32be s4 ++ u32be s5)
       (by have := h1.len; have := h2.len; simp [u32be]; omega)]
 
@@ -361,10 +362,10 @@ theorem parseRdata_soa_text (cls : Nat) (T1 w1 : List UInt8) (k1 : Nat) (T2 w2 :
 theorem parseRdata_a_text (a b c d : Nat) (ha : a ≤ 255) (hb : b ≤ 255) (hcc : c ≤ 255) (hd : d ≤ 255)
     (hG : ∀ i, i ≤ 0 → GapOK (G i) (S i) (S (i + 1))) (hT : TailOK tg cmt (S 1)) :
     parseRdata ctx 1 1 ⟨gapText (G 0) ++ ((decimal a ++ 46 :: (decimal b ++ 46 :: (decimal c ++ 46 :: decimal d))) ++
-        (tailText tg cmt crlf ++ r)), line, S 0⟩ =
+        (tailText tg cmt eol ++ r)), line, S 0⟩ =
       .ok ([UInt8.ofNat a, UInt8.ofNat b, UInt8.ofNat c, UInt8.ofNat d],
-        ⟨r, line + gapLines (G 0) + gapLines tg + 1, false⟩) := by
-  have hEnd := atFieldEnd_tail tg cmt _ hT crlf r
+        ⟨r, line + gapLines (G 0) + gapLines tg + eolLines eol, false⟩) := by
+  have hEnd := atFieldEnd_tail tg cmt _ hT eol r he
   have harm : findArm 1 1 = some "parse_in_a_rdata" := by decide
   have hlen : ∀ n, n ≤ 255 → (decimal n).length ≤ 3 := by
     intro n hn; have := (octet_decimal_facts n (by omega)).2.1; simpa using this
@@ -381,9 +382,10 @@ theorem parseRdata_a_text (a b c d : Nat) (ha : a ≤ 255) (hb : b ≤ 255) (hcc
     readField_plain parseIpv4 .InvalidIpv4 _ _ _ hplain
       (by have := hlen a ha; have := hlen b hb; have := hlen c hcc; have := hlen d hd; simp; omega) hEnd
       (parseIpv4_render a b c d (by omega) (by omega) (by omega) (by omega)),
-    expectEol_tail tg cmt _ hT crlf r,
+    expectEol_tail tg cmt _ hT eol r he,
     mkRdata_ok [UInt8.ofNat a, UInt8.ofNat b, UInt8.ofNat c, UInt8.ofNat d] (by simp)]
 
+omit he in
 theorem groupsText_facts (gs : List Nat) (hne : gs ≠ []) :
     (∀ x ∈ groupsText gs, plainOctet x = true) ∧ Starts (groupsText gs) ∧ ¬ [92, 35] <+: groupsText gs := by
   have hplain : ∀ g, ∀ x ∈ hexText g, plainOctet x = true := by
@@ -435,9 +437,9 @@ theorem groupsText_facts (gs : List Nat) (hne : gs ≠ []) :
 /-- IN AAAA: eight groups of hexadecimal digits -/
 theorem parseRdata_aaaa_text (gs : List Nat) (hlen : gs.length = 8) (hgs : ∀ g ∈ gs, g < 65536)
     (hG : ∀ i, i ≤ 0 → GapOK (G i) (S i) (S (i + 1))) (hT : TailOK tg cmt (S 1)) :
-    parseRdata ctx 1 28 ⟨gapText (G 0) ++ (groupsText gs ++ (tailText tg cmt crlf ++ r)), line, S 0⟩ =
-      .ok (gs.flatMap u16be', ⟨r, line + gapLines (G 0) + gapLines tg + 1, false⟩) := by
-  have hEnd := atFieldEnd_tail tg cmt _ hT crlf r
+    parseRdata ctx 1 28 ⟨gapText (G 0) ++ (groupsText gs ++ (tailText tg cmt eol ++ r)), line, S 0⟩ =
+      .ok (gs.flatMap u16be', ⟨r, line + gapLines (G 0) + gapLines tg + eolLines eol, false⟩) := by
+  have hEnd := atFieldEnd_tail tg cmt _ hT eol r he
   have harm : findArm 1 28 = some "parse_in_aaaa_rdata" := by decide
   have hne : gs ≠ [] := by intro h; simp [h] at hlen
   obtain ⟨hplain, hstarts, hnb⟩ := groupsText_facts gs hne
@@ -469,17 +471,177 @@ theorem parseRdata_aaaa_text (gs : List Nat) (hlen : gs.length = 8) (hgs : ∀ g
   unfold inAaaaRdataBody
   simp only [bind, P.bind,
     readField_plain parseIpv6 .InvalidIpv6 _ _ _ hplain hl hEnd (parseIpv6_render gs hlen hgs),
-    expectEol_tail tg cmt _ hT crlf r, mkRdata_ok _ hmk]
+    expectEol_tail tg cmt _ hT eol r he, mkRdata_ok _ hmk]
+
+omit he in
+theorem groupsText_plain (gs : List Nat) : ∀ x ∈ groupsText gs, plainOctet x = true := by
+  cases gs with
+  | nil => intro x hx; simp [groupsText] at hx
+  | cons g gs => exact (groupsText_facts (g :: gs) (by simp)).1
+
+omit he in
+theorem groupsText_length (gs : List Nat) (h : ∀ g ∈ gs, g < 65536) : (groupsText gs).length ≤ 5 * gs.length := by
+  have hh : ∀ g ∈ gs, (hexText g).length ≤ 4 := fun g hg => hexText_length g 3 (by simpa using h g hg)
+  induction gs with
+  | nil => simp [groupsText]
+  | cons g l ih =>
+    cases l with
+    | nil => have := hh g (by simp); simp [groupsText]; omega
+    | cons g2 l' =>
+      have := hh g (by simp)
+      have := ih (fun x hx => h x (by simp [hx])) (fun x hx => hh x (by simp [hx]))
+      simp only [groupsText, List.length_append, List.length_cons] at this ⊢
+      omega
+
+/-- IN AAAA with `::` -/
+theorem parseRdata_aaaaC_text (hd tl : List Nat) (hlen : hd.length + tl.length ≤ 7)
+    (hhd : ∀ g ∈ hd, g < 65536) (htl : ∀ g ∈ tl, g < 65536)
+    (hG : ∀ i, i ≤ 0 → GapOK (G i) (S i) (S (i + 1))) (hT : TailOK tg cmt (S 1)) :
+    parseRdata ctx 1 28 ⟨gapText (G 0) ++ ((groupsText hd ++ (58 :: 58 :: groupsText tl)) ++ (tailText tg cmt eol ++ r)), line, S 0⟩ =
+      .ok ((hd ++ List.replicate (8 - hd.length - tl.length) 0 ++ tl).flatMap u16be',
+        ⟨r, line + gapLines (G 0) + gapLines tg + eolLines eol, false⟩) := by
+  have hEnd := atFieldEnd_tail tg cmt _ hT eol r he
+  have harm : findArm 1 28 = some "parse_in_aaaa_rdata" := by decide
+  have hplain : ∀ x ∈ groupsText hd ++ (58 :: 58 :: groupsText tl), plainOctet x = true := by
+    intro x hx
+    simp only [List.mem_append, List.mem_cons] at hx
+    rcases hx with h | rfl | rfl | h
+    · exact groupsText_plain hd x h
+    · decide
+    · decide
+    · exact groupsText_plain tl x h
+  have hstarts : Starts (groupsText hd ++ (58 :: 58 :: groupsText tl)) := by
+    cases hd with
+    | nil => exact ⟨58, _, rfl, .inr (by decide)⟩
+    | cons g gs => exact ((groupsText_facts (g :: gs) (by simp)).2.1).append _
+  have hnb : ¬ [92, 35] <+: groupsText hd ++ (58 :: 58 :: groupsText tl) := by
+    obtain ⟨c, t, hct, hc⟩ := hstarts
+    rw [hct]
+    rintro ⟨u, hu⟩
+    simp at hu
+    obtain ⟨rfl, _⟩ := hu
+    -- the first octet is a plain one
+    have := hplain 92 (by rw [hct]; simp)
+    revert this; decide
+  have hl : (groupsText hd ++ (58 :: 58 :: groupsText tl)).length ≤ 65536 := by
+    have h1 := groupsText_length hd hhd
+    have h2 := groupsText_length tl htl
+    simp only [List.length_append, List.length_cons]
+    omega
+  have hmk : ((hd ++ List.replicate (8 - hd.length - tl.length) 0 ++ tl).flatMap u16be').length ≤ 65535 := by
+    have : ∀ (l : List Nat), (l.flatMap u16be').length = 2 * l.length := by
+      intro l; induction l with
+      | nil => rfl
+      | cons g l ih => simp [u16be', ih]; omega
+    rw [this]
+    simp only [List.length_append, List.length_replicate]
+    omega
+  rw [parseRdata_typed ctx 1 28 _ harm _ _ _ (hG 0 (by omega)) _ _ hstarts hnb hEnd line]
+  show inAaaaRdataBody _ = _
+  unfold inAaaaRdataBody
+  simp only [bind, P.bind,
+    readField_plain parseIpv6 .InvalidIpv6 _ _ _ hplain hl hEnd (parseIpv6_compressed hd tl hlen hhd htl),
+    expectEol_tail tg cmt _ hT eol r he, mkRdata_ok _ hmk]
+
+/-- IN AAAA, any way of writing the address: a plain text that `Ipv6Addr::from_str` accepts -/
+theorem parseRdata_aaaa_gen (T w : List UInt8) (hplain : ∀ x ∈ T, plainOctet x = true) (hne : T ≠ [])
+    (hl : T.length ≤ 65536) (hparse : parseIpv6 T = some w) (hmk : w.length ≤ 65535)
+    (hG : ∀ i, i ≤ 0 → GapOK (G i) (S i) (S (i + 1))) (hT : TailOK tg cmt (S 1)) :
+    parseRdata ctx 1 28 ⟨gapText (G 0) ++ (T ++ (tailText tg cmt eol ++ r)), line, S 0⟩ =
+      .ok (w, ⟨r, line + gapLines (G 0) + gapLines tg + eolLines eol, false⟩) := by
+  have hEnd := atFieldEnd_tail tg cmt _ hT eol r he
+  have harm : findArm 1 28 = some "parse_in_aaaa_rdata" := by decide
+  obtain ⟨c, t, rfl⟩ : ∃ c t, T = c :: t := by
+    cases T with
+    | nil => exact absurd rfl hne
+    | cons c t => exact ⟨c, t, rfl⟩
+  have hc := hplain c (by simp)
+  have hstarts : Starts (c :: t) := by
+    simp only [plainOctet, Bool.and_eq_true, Bool.not_eq_true'] at hc
+    exact ⟨c, t, rfl, .inr hc.1⟩
+  have hnb : ¬ [92, 35] <+: c :: t := by
+    rintro ⟨u, hu⟩
+    simp at hu
+    obtain ⟨rfl, _⟩ := hu
+    revert hc; decide
+  rw [parseRdata_typed ctx 1 28 _ harm _ _ _ (hG 0 (by omega)) _ _ hstarts hnb hEnd line]
+  show inAaaaRdataBody _ = _
+  unfold inAaaaRdataBody
+  simp only [bind, P.bind, readField_plain parseIpv6 .InvalidIpv6 _ _ _ hplain hl hEnd hparse,
+    expectEol_tail tg cmt _ hT eol r he, mkRdata_ok _ hmk]
+
+omit he in
+theorem quadText_plain (a b c d : Nat) : ∀ x ∈ quadText a b c d, plainOctet x = true := by
+  intro x hx
+  simp only [quadText, List.mem_append, List.mem_cons] at hx
+  rcases hx with h | rfl | h | rfl | h | rfl | h
+  all_goals first | exact decimal_plain _ _ h | decide
+
+omit he in
+theorem quadText_length (a b c d : Nat) (ha : a ≤ 255) (hb : b ≤ 255) (hc : c ≤ 255) (hd : d ≤ 255) :
+    (quadText a b c d).length ≤ 15 ∧ quadText a b c d ≠ [] := by
+  have hlen : ∀ n, n ≤ 255 → (decimal n).length ≤ 3 := by
+    intro n hn; have := (octet_decimal_facts n (by omega)).2.1; simpa using this
+  have := hlen a ha; have := hlen b hb; have := hlen c hc; have := hlen d hd
+  refine ⟨by simp [quadText]; omega, ?_⟩
+  have := decimal_ne_nil a
+  simp [quadText, this]
+
+omit he in
+theorem groupsThenQuad_facts (gs : List Nat) (hgs : ∀ g ∈ gs, g < 65536) (Q : List UInt8)
+    (hQ : ∀ x ∈ Q, plainOctet x = true) (hQne : Q ≠ []) :
+    (∀ x ∈ groupsThenQuad gs Q, plainOctet x = true) ∧ groupsThenQuad gs Q ≠ [] ∧
+      (groupsThenQuad gs Q).length ≤ 5 * gs.length + 1 + Q.length := by
+  cases gs with
+  | nil => exact ⟨by simpa [groupsThenQuad] using hQ, by simpa [groupsThenQuad] using hQne, by simp [groupsThenQuad]⟩
+  | cons g gs =>
+    have hl := groupsText_length (g :: gs) hgs
+    refine ⟨?_, by simp [groupsThenQuad], by simp only [groupsThenQuad, List.length_append, List.length_cons] at hl ⊢; omega⟩
+    intro x hx
+    simp only [groupsThenQuad, List.mem_append, List.mem_cons] at hx
+    rcases hx with h | rfl | h
+    · exact groupsText_plain _ x h
+    · decide
+    · exact hQ x h
+
+/-- CH A: network name and octal address -/
+theorem parseRdata_chA_text (T w : List UInt8) (k : Nat) (hn : NameTextOK ctx.origin T w k) (hnb : ¬ [92, 35] <+: T)
+    (a : Nat) (ha : a ≤ 65535)
+    (hG : ∀ i, i ≤ 1 → GapOK (G i) (S i) (S (i + 1))) (hT : TailOK tg cmt (S 2)) :
+    parseRdata ctx 3 1 ⟨gapText (G 0) ++ (T ++ (gapText (G 1) ++ (octalText a ++ (tailText tg cmt eol ++ r)))), line, S 0⟩ =
+      .ok (w ++ u16be a, ⟨r, line + gapLines (G 0) + k + gapLines (G 1) + gapLines tg + eolLines eol, false⟩) := by
+  have hEnd := atFieldEnd_tail tg cmt _ hT eol r he
+  have harm : findArm 3 1 = some "parse_ch_a_rdata" := by decide
+  have hoctS : Starts (octalText a ++ (tailText tg cmt eol ++ r)) := by
+    cases ho : octalText a with
+    | nil => exact absurd ho (octalText_ne_nil a)
+    | cons c t =>
+      obtain ⟨d, hd, rfl⟩ := octalText_digits a c (by rw [ho]; simp)
+      have := digit_plain (digit_octet (d := d) (by omega)).1
+      simp only [plainOctet, Bool.and_eq_true, Bool.not_eq_true'] at this
+      exact ⟨_, t ++ (tailText tg cmt eol ++ r), rfl, .inr this.1⟩
+  have hval : octVal (octalText a) 0 = a := by rw [octVal_octalText]; simp
+  have hchaos : ∀ l q, parseChaosnetAddress ⟨octalText a ++ (tailText tg cmt eol ++ r), l, q⟩ =
+      .ok (a, ⟨tailText tg cmt eol ++ r, l, q⟩) := by
+    intro l q
+    unfold parseChaosnetAddress
+    simp only [chaosLoop_digits l (octalText a) _ (octalText_digits a) hEnd 0 (by rw [hval]; exact ha), hval]
+  rw [parseRdata_typed ctx 3 1 _ harm _ _ _ (hG 0 (by omega)) T _ hn.starts hnb ((hG 1 (by omega)).atEnd _) line]
+  show chARdataBody ctx _ = _
+  unfold chARdataBody
+  simp only [bind, P.bind, pName, hn.parse _ _ _ ((hG 1 (by omega)).atEnd _),
+    (hG 1 (by omega)).skip _ _ hoctS, hchaos, expectEol_tail tg cmt _ hT eol r he,
+    mkRdata_ok (w ++ u16be a) (by have := hn.len; simp [u16be]; omega)]
 
 /-- HINFO: two character-strings -/
 theorem parseRdata_hinfo_text (cls : Nat) (s1 s2 : PString) (h1 : WFString s1) (h2 : WFString s2)
     (hnb : ¬ [92, 35] <+: stringText s1)
     (hG : ∀ i, i ≤ 1 → GapOK (G i) (S i) (S (i + 1))) (hT : TailOK tg cmt (S 2)) :
     parseRdata ctx cls 13 ⟨gapText (G 0) ++ (stringText s1 ++ (gapText (G 1) ++ (stringText s2 ++
-        (tailText tg cmt crlf ++ r)))), line, S 0⟩ =
+        (tailText tg cmt eol ++ r)))), line, S 0⟩ =
       .ok (stringWire s1 ++ stringWire s2,
-        ⟨r, line + gapLines (G 0) + stringLines s1 + gapLines (G 1) + stringLines s2 + gapLines tg + 1, false⟩) := by
-  have hEnd := atFieldEnd_tail tg cmt _ hT crlf r
+        ⟨r, line + gapLines (G 0) + stringLines s1 + gapLines (G 1) + stringLines s2 + gapLines tg + eolLines eol, false⟩) := by
+  have hEnd := atFieldEnd_tail tg cmt _ hT eol r he
   have harm : findArm cls 13 = some "parse_hinfo_rdata" := by
     simp [findArm, Gen.parseRdataArms, armMatches, List.find?]
   rw [parseRdata_typed ctx cls 13 _ harm _ _ _ (hG 0 (by omega)) _ _ (stringText_starts s1 h1) hnb
@@ -490,7 +652,7 @@ theorem parseRdata_hinfo_text (cls : Nat) (s1 s2 : PString) (h1 : WFString s1) (
   have hl2 : (stringOctets s2).length ≤ 255 := by simpa [stringOctets] using h2.len
   simp only [bind, P.bind, parseCharacterString_render s1 h1 _ ((hG 1 (by omega)).atEnd _),
     (hG 1 (by omega)).skip _ _ ((stringText_starts s2 h2).append _),
-    parseCharacterString_render s2 h2 _ hEnd, expectEol_tail tg cmt _ hT crlf r,
+    parseCharacterString_render s2 h2 _ hEnd, expectEol_tail tg cmt _ hT eol r he,
     mkRdata_ok (UInt8.ofNat (stringOctets s1).length :: stringOctets s1 ++
       UInt8.ofNat (stringOctets s2).length :: stringOctets s2) (by simp; omega)]
   simp [stringWire, stringOctets]
@@ -501,19 +663,19 @@ theorem txtLoop_render (sl : Nat) (H : Nat → PGap) (Q : Nat → Bool) (s : PSt
     (hH : ∀ j, i ≤ j → j < i + ss.length → GapOK (H j) (Q j) (Q (j + 1)))
     (hT : TailOK tg cmt (Q (i + ss.length)))
     (acc : List UInt8) (hlen : acc.length + ((s :: ss).flatMap stringWire).length ≤ 65535) (line' : Nat) :
-    txtLoop sl ⟨stringText s ++ (txtRest H i ss ++ (tailText tg cmt crlf ++ r)), line', Q i⟩ acc =
+    txtLoop sl ⟨stringText s ++ (txtRest H i ss ++ (tailText tg cmt eol ++ r)), line', Q i⟩ acc =
       .ok (acc.reverse ++ (s :: ss).flatMap stringWire,
-           ⟨r, line' + stringLines s + txtLines H i ss + gapLines tg + 1, false⟩) := by
+           ⟨r, line' + stringLines s + txtLines H i ss + gapLines tg + eolLines eol, false⟩) := by
   induction ss generalizing s acc line' i with
   | nil =>
     have hT' : TailOK tg cmt (Q i) := by simpa using hT
-    have hEnd := atFieldEnd_tail tg cmt _ hT' crlf r
+    have hEnd := atFieldEnd_tail tg cmt _ hT' eol r he
     have hs := hwf s (by simp)
     rw [txtLoop.eq_def]
     simp only [txtRest, List.nil_append, parseCharacterString_render s hs _ hEnd]
     have e : ¬ acc.length + (stringOctets s).length + 1 > 65535 := by
       simp [stringWire] at hlen; omega
-    simp only [e, ↓reduceIte, fieldOrEol_tail tg cmt _ hT' crlf r]
+    simp only [e, ↓reduceIte, fieldOrEol_tail tg cmt _ hT' eol r he]
     simp [stringWire, stringOctets, txtLines]
   | cons x ss ih =>
     have hs := hwf s (by simp)
@@ -523,12 +685,12 @@ theorem txtLoop_render (sl : Nat) (H : Nat → PGap) (Q : Nat → Bool) (s : PSt
     simp only [txtRest, List.append_assoc, parseCharacterString_render s hs _ (hg.atEnd _)]
     have e : ¬ acc.length + (stringOctets s).length + 1 > 65535 := by
       simp [stringWire] at hlen; omega
-    have hXs : Starts (stringText x ++ (txtRest H (i + 1) ss ++ (tailText tg cmt crlf ++ r))) :=
+    have hXs : Starts (stringText x ++ (txtRest H (i + 1) ss ++ (tailText tg cmt eol ++ r))) :=
       (stringText_starts x hx).append _
     simp only [e, ↓reduceIte, fieldOrEol_gapG true (H i) (Q i) (Q (i + 1)) hg.wf hg.run _ hXs]
     have hgl : 0 < (gapText (H i)).length := gapText_pos hg.ne
-    have hprog : (stringText x ++ (txtRest H (i + 1) ss ++ (tailText tg cmt crlf ++ r))).length <
-        (stringText s ++ (gapText (H i) ++ (stringText x ++ (txtRest H (i + 1) ss ++ (tailText tg cmt crlf ++ r))))).length := by
+    have hprog : (stringText x ++ (txtRest H (i + 1) ss ++ (tailText tg cmt eol ++ r))).length <
+        (stringText s ++ (gapText (H i) ++ (stringText x ++ (txtRest H (i + 1) ss ++ (tailText tg cmt eol ++ r))))).length := by
       simp only [List.length_append]; omega
     simp only [hprog, ↓reduceIte]
     rw [ih x (i + 1) (fun y hy => hwf y (by simp [hy]))
@@ -546,21 +708,21 @@ theorem parseRdata_txt_text (cls : Nat) (s : PString) (ss : List PString) (hwf :
     (hnb : ¬ [92, 35] <+: stringText s) (hlen : ((s :: ss).flatMap stringWire).length ≤ 65535)
     (hG : ∀ i, i ≤ ss.length → GapOK (G i) (S i) (S (i + 1))) (hT : TailOK tg cmt (S (ss.length + 1))) :
     parseRdata ctx cls 16 ⟨gapText (G 0) ++ (stringText s ++ (txtRest (fun i => G (i + 1)) 0 ss ++
-        (tailText tg cmt crlf ++ r))), line, S 0⟩ =
+        (tailText tg cmt eol ++ r))), line, S 0⟩ =
       .ok ((s :: ss).flatMap stringWire,
-        ⟨r, line + gapLines (G 0) + stringLines s + txtLines (fun i => G (i + 1)) 0 ss + gapLines tg + 1, false⟩) := by
+        ⟨r, line + gapLines (G 0) + stringLines s + txtLines (fun i => G (i + 1)) 0 ss + gapLines tg + eolLines eol, false⟩) := by
   have harm : findArm cls 16 = some "parse_txt_rdata" := by
     simp [findArm, Gen.parseRdataArms, armMatches, List.find?]
-  have hE : atFieldEnd (txtRest (fun i => G (i + 1)) 0 ss ++ (tailText tg cmt crlf ++ r)) = true := by
+  have hE : atFieldEnd (txtRest (fun i => G (i + 1)) 0 ss ++ (tailText tg cmt eol ++ r)) = true := by
     cases ss with
-    | nil => simpa [txtRest] using atFieldEnd_tail tg cmt _ hT crlf r
+    | nil => simpa [txtRest] using atFieldEnd_tail tg cmt _ hT eol r he
     | cons x ss =>
       simp only [txtRest, List.append_assoc]
       exact (hG 1 (by simp)).atEnd _
   rw [parseRdata_typed ctx cls 16 _ harm _ _ _ (hG 0 (by omega)) _ _ (stringText_starts s (hwf s (by simp))) hnb hE line]
   show txtRdataBody _ = _
   unfold txtRdataBody
-  have := txtLoop_render tg cmt crlf r (line + gapLines (G 0)) (fun i => G (i + 1)) (fun i => S (i + 1)) s ss 0 hwf
+  have := txtLoop_render tg cmt eol r he (line + gapLines (G 0)) (fun i => G (i + 1)) (fun i => S (i + 1)) s ss 0 hwf
     (fun j _ h2 => hG (j + 1) (by omega)) (by simpa [Nat.add_comm] using hT) [] (by simpa using hlen)
     (line + gapLines (G 0))
   simp only [bind, P.bind, getLine, this]
@@ -586,19 +748,24 @@ def WFRdata : PRdata → Prop
   | .txt s ss => (∀ x ∈ s :: ss, WFString x) ∧ notBh (stringText s) ∧ ((s :: ss).flatMap stringWire).length ≤ 65535
   | .hinfo c o => WFString c ∧ WFString o ∧ notBh (stringText c)
   | .aaaa gs => gs.length = 8 ∧ ∀ g ∈ gs, g < 65536
+  | .chA n a => WFName n ∧ notBh (nameText n) ∧ a ≤ 65535
+  | .aaaaC hd tl => hd.length + tl.length ≤ 7 ∧ (∀ g ∈ hd, g < 65536) ∧ ∀ g ∈ tl, g < 65536
+  | .aaaaV4 hd none a b c d => hd.length = 6 ∧ (∀ g ∈ hd, g < 65536) ∧ a ≤ 255 ∧ b ≤ 255 ∧ c ≤ 255 ∧ d ≤ 255
+  | .aaaaV4 hd (some tl) a b c d => hd.length + tl.length + 2 ≤ 7 ∧ (∀ g ∈ hd, g < 65536) ∧ (∀ g ∈ tl, g < 65536) ∧
+      a ≤ 255 ∧ b ≤ 255 ∧ c ≤ 255 ∧ d ≤ 255
 
 /-- **RDATA.**  The text of well-formed RDATA of the right kind for `(cls, ty)`, with any
     well-formed gaps before, inside and after it, is read back by `parse_rdata` as the RDATA it
     denotes (RFC 3597 form: provided that is valid for the type) -/
 theorem parseRdata_render (ctx : Ctx) (hctx : CtxWF ctx) (cls ty : Nat) (h41 : ty ≠ 41) (h250 : ty ≠ 250)
-    (G : Nat → PGap) (S : Nat → Bool) (tg : PGap) (cmt : List UInt8) (crlf : Bool) (r : List UInt8)
+    (G : Nat → PGap) (S : Nat → Bool) (tg : PGap) (cmt : List UInt8) (eol : PEol) (r : List UInt8) (he : eol = .eof → r = [])
     (rd : PRdata) (hG : ∀ i, i ≤ rdataGaps rd → GapOK (G i) (S i) (S (i + 1)))
     (hT : TailOK tg cmt (S (rdataGaps rd + 1))) (hwf : WFRdata rd)
     (hk : kindOK cls ty rd = true) (w : List UInt8) (hw : rdataWire ctx.origin rd = some w)
     (hv : ∀ g, rd = .generic g → validate cls ty g = .ok ()) (line : Nat) :
     parseRdata ctx cls ty
-      ⟨gapText (G 0) ++ (rdataText (fun i => G (i + 1)) rd ++ (tailText tg cmt crlf ++ r)), line, S 0⟩ =
-      .ok (w, ⟨r, line + gapLines (G 0) + rdataLines (fun i => G (i + 1)) rd + gapLines tg + 1, false⟩) := by
+      ⟨gapText (G 0) ++ (rdataText (fun i => G (i + 1)) rd ++ (tailText tg cmt eol ++ r)), line, S 0⟩ =
+      .ok (w, ⟨r, line + gapLines (G 0) + rdataLines (fun i => G (i + 1)) rd + gapLines tg + eolLines eol, false⟩) := by
   have hO := hctx.1
   cases rd with
   | generic g =>
@@ -608,12 +775,12 @@ theorem parseRdata_render (ctx : Ctx) (hctx : CtxWF ctx) (cls ty : Nat) (h41 : t
     · subst hg
       simp only [rdataGaps, List.isEmpty_nil, ↓reduceIte] at hG hT
       have := parseRdata_genericG ctx cls ty h41 h250 (G 0) (G 1) (G 2) (S 0) (S 1) (S 2) (S 2) [] (hG 0 (by omega))
-        (hG 1 (by omega)) (by simp) (by simp) tg cmt hT crlf r (by simp) (hv [] rfl) line
+        (hG 1 (by omega)) (by simp) (by simp) tg cmt hT eol r he (by simp) (hv [] rfl) line
       simpa [rdataText, rdataLines] using this
     · have hge : g.isEmpty = false := by cases g <;> simp at hg ⊢
       simp only [rdataGaps, hge, Bool.false_eq_true, ↓reduceIte] at hG hT
       have := parseRdata_genericG ctx cls ty h41 h250 (G 0) (G 1) (G 2) (S 0) (S 1) (S 2) (S 3) g (hG 0 (by omega))
-        (hG 1 (by omega)) (fun _ => hG 2 (by omega)) (fun h => absurd h hg) tg cmt hT crlf r hwf (hv g rfl) line
+        (hG 1 (by omega)) (fun _ => hG 2 (by omega)) (fun h => absurd h hg) tg cmt hT eol r he hwf (hv g rfl) line
       simpa [rdataText, rdataLines, hge, Nat.add_assoc] using this
   | a a b c d =>
     obtain ⟨ha, hb, hcc, hd⟩ := hwf
@@ -621,11 +788,11 @@ theorem parseRdata_render (ctx : Ctx) (hctx : CtxWF ctx) (cls ty : Nat) (h41 : t
     obtain ⟨rfl, rfl⟩ := hk
     simp only [rdataWire, Option.some.injEq] at hw
     subst hw
-    have := parseRdata_a_text ctx G S tg cmt crlf r line a b c d ha hb hcc hd hG hT
+    have := parseRdata_a_text ctx G S tg cmt eol r he line a b c d ha hb hcc hd hG hT
     simpa [rdataText, rdataLines] using this
   | name n =>
     obtain ⟨hn, hnb⟩ := hwf
-    have := parseRdata_name_text ctx G S tg cmt crlf r line cls ty (by simpa [kindOK] using hk)
+    have := parseRdata_name_text ctx G S tg cmt eol r he line cls ty (by simpa [kindOK] using hk)
       (nameText n) w (nameLines n) (nameText_ok ctx.origin hO n hn w hw) hnb hG hT
     simpa [rdataText, rdataLines] using this
   | mx p n =>
@@ -634,7 +801,7 @@ theorem parseRdata_render (ctx : Ctx) (hctx : CtxWF ctx) (cls ty : Nat) (h41 : t
     subst hk
     simp only [rdataWire, Option.map_eq_some_iff] at hw
     obtain ⟨wn, hwn, rfl⟩ := hw
-    have := parseRdata_mx_text ctx G S tg cmt crlf r line cls p hp (nameText n) wn (nameLines n)
+    have := parseRdata_mx_text ctx G S tg cmt eol r he line cls p hp (nameText n) wn (nameLines n)
       (nameText_ok ctx.origin hO n hn wn hwn) hG hT
     simpa [rdataText, rdataLines, u16Wire, u16be, Nat.add_assoc] using this
   | soa m rn s1 s2 s3 s4 s5 =>
@@ -646,23 +813,23 @@ theorem parseRdata_render (ctx : Ctx) (hctx : CtxWF ctx) (cls ty : Nat) (h41 : t
     · next wm wr hwm hwr =>
       simp only [Option.some.injEq] at hw
       subst hw
-      have := parseRdata_soa_text ctx G S tg cmt crlf r line cls (nameText m) wm (nameLines m)
+      have := parseRdata_soa_text ctx G S tg cmt eol r he line cls (nameText m) wm (nameLines m)
         (nameText rn) wr (nameLines rn) (nameText_ok ctx.origin hO m hm wm hwm)
         (nameText_ok ctx.origin hO rn hr wr hwr) hnb s1 s2 s3 s4 s5 b1 b2 b3 b4 b5 hG hT
       simpa [rdataText, rdataLines, u32Wire, u32be, Nat.add_assoc] using this
     · cases hw
   | minfo rn e =>
-    obtain ⟨hr, he, hnb⟩ := hwf
+    obtain ⟨hr, hwe, hnb⟩ := hwf
     simp only [kindOK, beq_iff_eq] at hk
     subst hk
     simp only [rdataWire] at hw
     split at hw
-    · next wr we hwr hwe =>
+    · next wr we hwr hwe' =>
       simp only [Option.some.injEq] at hw
       subst hw
-      have := parseRdata_minfo_text ctx G S tg cmt crlf r line cls (nameText rn) wr (nameLines rn)
+      have := parseRdata_minfo_text ctx G S tg cmt eol r he line cls (nameText rn) wr (nameLines rn)
         (nameText e) we (nameLines e) (nameText_ok ctx.origin hO rn hr wr hwr)
-        (nameText_ok ctx.origin hO e he we hwe) hnb hG hT
+        (nameText_ok ctx.origin hO e hwe we hwe') hnb hG hT
       simpa [rdataText, rdataLines, Nat.add_assoc] using this
     · cases hw
   | srv p wt port n =>
@@ -671,7 +838,7 @@ theorem parseRdata_render (ctx : Ctx) (hctx : CtxWF ctx) (cls ty : Nat) (h41 : t
     obtain ⟨rfl, rfl⟩ := hk
     simp only [rdataWire, Option.map_eq_some_iff] at hw
     obtain ⟨wn, hwn, rfl⟩ := hw
-    have := parseRdata_srv_text ctx G S tg cmt crlf r line p wt port hp hwt hport (nameText n) wn
+    have := parseRdata_srv_text ctx G S tg cmt eol r he line p wt port hp hwt hport (nameText n) wn
       (nameLines n) (nameText_ok ctx.origin hO n hn wn hwn) hG hT
     simpa [rdataText, rdataLines, u16Wire, u16be, Nat.add_assoc] using this
   | txt s ss =>
@@ -680,7 +847,7 @@ theorem parseRdata_render (ctx : Ctx) (hctx : CtxWF ctx) (cls ty : Nat) (h41 : t
     subst hk
     simp only [rdataWire, Option.some.injEq] at hw
     subst hw
-    have := parseRdata_txt_text ctx G S tg cmt crlf r line cls s ss hss hnb hlen hG hT
+    have := parseRdata_txt_text ctx G S tg cmt eol r he line cls s ss hss hnb hlen hG hT
     simpa [rdataText, rdataLines, Nat.add_assoc] using this
   | hinfo c o =>
     obtain ⟨h1, h2, hnb⟩ := hwf
@@ -688,7 +855,7 @@ theorem parseRdata_render (ctx : Ctx) (hctx : CtxWF ctx) (cls ty : Nat) (h41 : t
     subst hk
     simp only [rdataWire, Option.some.injEq] at hw
     subst hw
-    have := parseRdata_hinfo_text ctx G S tg cmt crlf r line cls c o h1 h2 hnb hG hT
+    have := parseRdata_hinfo_text ctx G S tg cmt eol r he line cls c o h1 h2 hnb hG hT
     simpa [rdataText, rdataLines, Nat.add_assoc] using this
   | aaaa gs =>
     obtain ⟨hlen, hgs⟩ := hwf
@@ -696,7 +863,7 @@ theorem parseRdata_render (ctx : Ctx) (hctx : CtxWF ctx) (cls ty : Nat) (h41 : t
     obtain ⟨rfl, rfl⟩ := hk
     simp only [rdataWire, Option.some.injEq] at hw
     subst hw
-    have := parseRdata_aaaa_text ctx G S tg cmt crlf r line gs hlen hgs hG hT
+    have := parseRdata_aaaa_text ctx G S tg cmt eol r he line gs hlen hgs hG hT
     have hw : ∀ l : List Nat, (∀ g ∈ l, g < 65536) → l.flatMap u16be' = l.flatMap u16Wire := by
       intro l
       induction l with
@@ -708,5 +875,93 @@ theorem parseRdata_render (ctx : Ctx) (hctx : CtxWF ctx) (cls ty : Nat) (h41 : t
         rw [Nat.mod_eq_of_lt (by omega : g / 256 < 256)]
     rw [hw gs hgs] at this
     simpa [rdataText, rdataLines] using this
+  | chA n a =>
+    obtain ⟨hn, hnb, ha⟩ := hwf
+    simp only [kindOK, Bool.and_eq_true, beq_iff_eq] at hk
+    obtain ⟨rfl, rfl⟩ := hk
+    simp only [rdataWire, Option.map_eq_some_iff] at hw
+    obtain ⟨wn, hwn, rfl⟩ := hw
+    have := parseRdata_chA_text ctx G S tg cmt eol r he line (nameText n) wn (nameLines n)
+      (nameText_ok ctx.origin hO n hn wn hwn) hnb a ha hG hT
+    simpa [rdataText, rdataLines, u16Wire, u16be, Nat.add_assoc, Nat.add_comm (gapLines (G 0))] using this
+  | aaaaC hd tl =>
+    obtain ⟨hlen, hhd, htl⟩ := hwf
+    simp only [kindOK, Bool.and_eq_true, beq_iff_eq] at hk
+    obtain ⟨rfl, rfl⟩ := hk
+    simp only [rdataWire, Option.some.injEq] at hw
+    subst hw
+    have := parseRdata_aaaaC_text ctx G S tg cmt eol r he line hd tl hlen hhd htl hG hT
+    have hw : ∀ l : List Nat, (∀ g ∈ l, g < 65536) → l.flatMap u16be' = l.flatMap u16Wire := by
+      intro l
+      induction l with
+      | nil => intro _; rfl
+      | cons g l ih =>
+        intro h
+        have hg := h g (by simp)
+        simp only [List.flatMap_cons, ih (fun x hx => h x (by simp [hx])), u16be', u16Wire]
+        rw [Nat.mod_eq_of_lt (by omega : g / 256 < 256)]
+    rw [hw _ (by
+      intro g hg
+      simp only [List.mem_append, List.mem_replicate] at hg
+      rcases hg with (h | ⟨_, rfl⟩) | h
+      · exact hhd g h
+      · decide
+      · exact htl g h)] at this
+    simpa [rdataText, rdataLines] using this
+  | aaaaV4 hd tlo a b c d =>
+    simp only [kindOK, Bool.and_eq_true, beq_iff_eq] at hk
+    obtain ⟨rfl, rfl⟩ := hk
+    have hw16 : ∀ l : List Nat, (∀ g ∈ l, g < 65536) → l.flatMap u16be' = l.flatMap u16Wire := by
+      intro l
+      induction l with
+      | nil => intro _; rfl
+      | cons g l ih =>
+        intro h
+        have hg := h g (by simp)
+        simp only [List.flatMap_cons, ih (fun x hx => h x (by simp [hx])), u16be', u16Wire]
+        rw [Nat.mod_eq_of_lt (by omega : g / 256 < 256)]
+    have hlen2 : ∀ (l : List Nat), (l.flatMap u16Wire).length = 2 * l.length := by
+      intro l; induction l with
+      | nil => rfl
+      | cons g l ih => simp [u16Wire, ih]; omega
+    cases tlo with
+    | none =>
+      obtain ⟨hlen, hhd, ha, hb, hc, hdq⟩ := hwf
+      simp only [rdataWire, Option.some.injEq] at hw
+      subst hw
+      obtain ⟨q1, q2⟩ := quadText_length a b c d ha hb hc hdq
+      obtain ⟨f1, f2, f3⟩ := groupsThenQuad_facts hd hhd (quadText a b c d) (quadText_plain a b c d) q2
+      have hp := parseIpv6_full_v4 hd hlen hhd a b c d (by omega) (by omega) (by omega) (by omega)
+      rw [(runV_eq _ hd).1, hw16 hd hhd] at hp
+      have := parseRdata_aaaa_gen ctx G S tg cmt eol r he line _ _ f1 f2 (by omega) hp
+        (by simp [hlen2, hlen]) hG hT
+      simpa [rdataText, rdataLines] using this
+    | some tl =>
+      obtain ⟨hlen, hhd, htl, ha, hb, hc, hdq⟩ := hwf
+      simp only [rdataWire, Option.some.injEq] at hw
+      subst hw
+      obtain ⟨q1, q2⟩ := quadText_length a b c d ha hb hc hdq
+      obtain ⟨f1, f2, f3⟩ := groupsThenQuad_facts tl htl (quadText a b c d) (quadText_plain a b c d) q2
+      have hp := parseIpv6_compressed_v4 hd tl hlen hhd htl a b c d (by omega) (by omega) (by omega) (by omega)
+      rw [(runV_eq _ tl).1, hw16 _ (by
+        intro g hg
+        simp only [List.mem_append, List.mem_replicate] at hg
+        rcases hg with (h | ⟨_, rfl⟩) | h
+        · exact hhd g h
+        · decide
+        · exact htl g h)] at hp
+      have hplain : ∀ x ∈ groupsText hd ++ (58 :: 58 :: groupsThenQuad tl (quadText a b c d)), plainOctet x = true := by
+        intro x hx
+        simp only [List.mem_append, List.mem_cons] at hx
+        rcases hx with h | rfl | rfl | h
+        · exact groupsText_plain hd x h
+        · decide
+        · decide
+        · exact f1 x h
+      have hl1 := groupsText_length hd hhd
+      have := parseRdata_aaaa_gen ctx G S tg cmt eol r he line _ _ hplain (by simp)
+        (by simp only [List.length_append, List.length_cons]; omega) hp
+        (by simp [hlen2]; omega) hG hT
+      simpa [rdataText, rdataLines] using this
 
 end QV.ZF
